@@ -1,4 +1,5 @@
 import Mhd.Model.ReplyWire
+import Mhd.Model.ReplyIov
 import Driver.Common
 open Mhd.ReplyStr Mhd.Resp Mhd.Reply Driver
 
@@ -148,6 +149,48 @@ def stepLine (s : St) (ws : List String) : St × List String :=
   | ["new", i, "empty", fl] => match i.toNat?, fl.toNat? with
       | some i, some f => (s.put i ⟨Resp.createEmpty (G.rflagsOfNat f), .buffer []⟩, ["ok"])
       | _, _ => (s, ["bad-op"])
+  | ["new", i, "iov", spec] =>
+      let elem (p : String) : Option Mhd.Iov.IoVec :=
+        if p == "z" then some ⟨none, 0⟩
+        else if p == "d" then some ⟨some [35], 0⟩
+        else if p.startsWith "n" then (p.drop 1).toNat?.map fun n => ⟨none, n⟩
+        else match p.splitOn ":" with
+          | [a, b] => match a.toNat?, b.toNat? with
+            | some off, some len => if off ≤ 2 ^ 20 && len ≤ 2 ^ 20 then some ⟨some (patRange off len), len⟩ else none
+            | _, _ => none
+          | _ => none
+      let arg : Option (Option (List Mhd.Iov.IoVec) × Nat) :=
+        if spec.startsWith "N" then (match (spec.drop 1).toNat? with
+          | some c => if c ≤ 1000 then some (none, c) else none
+          | none => none)
+        else if spec == "-" then some (some [], 0)
+        else ((spec.splitOn ",").mapM elem).bind fun l => if l.length ≤ 64 then some (some l, l.length) else none
+      match i.toNat?, arg with
+      | some i, some (iov, cnt) =>
+        (match Mhd.Iov.createFromIovec iov cnt with
+         | none => ({ slots := s.slots.filter (·.1 != i) }, ["null"])
+         | some r => (s.put i ⟨Resp.create r.totalSize, .buffer (Mhd.Iov.iovBody r.data)⟩, ["ok"]))
+      | _, _ => (s, ["bad-op"])
+  | ["new", i, "bufnull", len] => match i.toNat?, len.toNat? with
+      | some i, some n =>
+        if n < 2 ^ 24 then
+          (if n == 0 then (s.put i ⟨Resp.create 0, .buffer []⟩, ["ok"]) else ({ slots := s.slots.filter (·.1 != i) }, ["null"]))
+        else (s, ["bad-op"])
+      | _, _ => (s, ["bad-op"])
+  | ["new", i, "fd", size, off, fsize] => match i.toNat?, size.toNat?, off.toNat?, fsize.toNat? with
+      | some i, some size, some off, some fsize =>
+        if fsize ≤ 2 ^ 22 && size < 2 ^ 64 && off < 2 ^ 64 then
+          (match Mhd.Iov.createFromFd size off (patRange 0 fsize) with
+           | none => ({ slots := s.slots.filter (·.1 != i) }, ["null"])
+           | some (sz, body) => (s.put i ⟨Resp.create sz, .buffer body⟩, ["ok"]))
+        else (s, ["bad-op"])
+      | _, _, _, _ => (s, ["bad-op"])
+  | ["new", i, "pipe", len] => match i.toNat?, len.toNat? with
+      | some i, some n =>
+        if n ≤ 4096 then
+          (s.put i ⟨Resp.create Mhd.Gen.Reply.sizeUnknown, .callback (if n == 0 then [] else [patRange 0 n]) .eos⟩, ["ok"])
+        else (s, ["bad-op"])
+      | _, _ => (s, ["bad-op"])
   | ["new", i, "upg"] => match i.toNat? with
       | some i => (s.put i ⟨Resp.createUpgrade, .buffer []⟩, ["ok"])
       | _ => (s, ["bad-op"])
@@ -230,6 +273,36 @@ def stepLine (s : St) (ws : List String) : St × List String :=
   | ["foot?", i, bs] => match i.toNat?.bind s.get, bs.toNat? with
       | some sl, some bs => (s, [match buildFooter sl.r bs with | some b => "out=" ++ hexOfBytes b | none => "NO"])
       | _, _ => (s, ["bad-op"])
+  -- ---------------------------------------------------------------- error reply generated by the daemon itself
+  | ["terr", swe, late, shut, ka, rc, ver, ct, m, sup, nodate, code, msg, hn, hv, wb1, wb2] =>
+      match b01 swe, b01 late, b01 shut, ka.toInt?.bind G.kaOfInt, b01 rc, ver.toInt?.bind G.verOfInt, ct.toNat?,
+            m.toInt?.bind G.mthdOfInt, b01 sup, b01 nodate, code.toNat?, bytesOfHex msg, wb1.toNat?, wb2.toNat? with
+      | some swe, some late, some shut, some ka, some rc, some ver, some ct, some m, some sup, some nodate, some code,
+        some msg, some wb1, some wb2 =>
+        let hdr? : Option (Option (Bytes × Bytes)) :=
+          if hn == "none" then some none
+          else match bytesOfHex hn, bytesOfHex hv with
+            | some n, some v => if n.isEmpty || v.isEmpty then none else some (some (n, v))
+            | _, _ => none
+        match hdr? with
+        | none => (s, ["bad-op"])
+        | some hdr =>
+          if ct < 4 && code < 2 ^ 32 && wb1 ≤ wb2 && 16 ≤ wb2 && wb2 ≤ 2 ^ 20 then
+            let c := mkConn ka rc false ver ct m sup
+            let date := if nodate then none else some maskDate
+            match transmitErrorResponse c swe late shut code msg hdr date wb1 wb2 with
+            | .closedNoReply => (s, ["closed"])
+            | .reply out =>
+              let r := errorResponse msg.length hdr
+              match queueResponse { c with discardRequest := true } .fullReqReceived false shut false code r with
+              | none => (s, ["fault"])
+              | some q =>
+                let pos := startPosAfterQueue q r 0
+                let body : Bytes := if out.props.sendReplyBody then (normalBody r.totalSize (.buffer msg) pos).bytes else []
+                let head := out.wire.take (out.wire.length - body.length)
+                (s, [s!"sent ka={G.intOfKa out.ka} p={propsChar out.ka out.props} dr=1 swe=1 pos={pos} total={r.totalSize} hdr={hexOfBytes head}"])
+          else (s, ["bad-op"])
+      | _, _, _, _, _, _, _, _, _, _, _, _, _, _ => (s, ["bad-op"])
   -- ---------------------------------------------------------------- token helpers
   | ["rt", sv, tv] => match bytesOfHex sv, bytesOfHex tv with
       | some sb, some tb =>
